@@ -136,3 +136,43 @@ Fixpoint rename_spec (mask : list bool) (ps : list pname) (new : list string) : 
   | false :: m, p :: r => match new with n :: ns => (n, snd p) :: rename_spec m r ns | [] => [] end
   | _, _ => []
   end.
+
+(* ---------------- which sensitivities a reduced mechanistic model asks for ----------------
+   ReducedMechanisticModel: enable_sensitivities(True) asks the wrapped model for the sensitivities w.r.t. the FREE
+   parameters; fix_parameters ends with "if has_sensitivities: enable_sensitivities(True)" so that the request follows
+   the free set.  State: the fixed name-value map and the current request (None = sensitivities off). *)
+Section SensProtocol.
+  Variable V : Type.
+  Record rstate := { rfixed : state V; rsens : option (list string) }.
+  Inductive rop := RFix (d : dict V) | RSens (on : bool).
+  Definition refresh (s : state V) (sn : option (list string)) : option (list string) :=
+    match sn with None => None | Some _ => Some (free_names s) end.
+  Definition rstep (r : rstate) (o : rop) : rstate :=
+    match o with
+    | RFix d => let s' := fix_params (rfixed r) d in {| rfixed := s'; rsens := refresh s' (rsens r) |}
+    | RSens true => {| rfixed := rfixed r; rsens := Some (free_names (rfixed r)) |}
+    | RSens false => {| rfixed := rfixed r; rsens := None |}
+    end.
+  Definition rinit (names : list string) : rstate := {| rfixed := init names; rsens := None |}.
+  Definition rrun (step : rstate -> rop -> rstate) (names : list string) (ops : list rop) : rstate :=
+    fold_left step ops (rinit names).
+  Definition rok (r : rstate) : Prop :=
+    match rsens r with None => True | Some l => l = free_names (rfixed r) end.
+  (* two "optimisations": refresh only when the number of fixed parameters changed; return early when nothing is
+     fixed any more *)
+  Definition rstep_count (r : rstate) (o : rop) : rstate :=
+    match o with
+    | RFix d => let s' := fix_params (rfixed r) d in
+                {| rfixed := s';
+                   rsens := if Nat.eqb (n_fixed s') (n_fixed (rfixed r)) then rsens r else refresh s' (rsens r) |}
+    | _ => rstep r o
+    end.
+  Definition rstep_early (r : rstate) (o : rop) : rstate :=
+    match o with
+    | RFix d => let s' := fix_params (rfixed r) d in
+                {| rfixed := s'; rsens := if Nat.eqb (n_fixed s') 0 then rsens r else refresh s' (rsens r) |}
+    | _ => rstep r o
+    end.
+End SensProtocol.
+Arguments rfixed {V}. Arguments rsens {V}. Arguments RFix {V}. Arguments RSens {V}. Arguments rstep {V}.
+Arguments rrun {V}. Arguments rok {V}. Arguments rstep_count {V}. Arguments rstep_early {V}. Arguments rinit {V}.
